@@ -23,6 +23,27 @@ def aliases_in(e):
     return out
 
 
+def is_constant(e):
+    hit = []
+
+    def fn(x):
+        if x.k in ("col", "subq", "agg", "grouping", "aliasref"):
+            hit.append(1)
+    _walk_exprs(e, fn)
+    return not hit
+
+
+def term_key(t):
+    """Structural key of a conjunct; constant terms are keyed by their value (the optimizer folds them first)."""
+    if is_constant(t):
+        try:
+            from vf.refsql import Model, Env
+            return ("const", Model({}).ev(t, Env({})))
+        except Exception:
+            pass
+    return struct_key(t)
+
+
 def or_absorption(e):
     """(X AND A) OR (A): an OR child whose conjuncts are all common to every child (distributive-OR rewrite drops it)."""
     hit = []
@@ -30,7 +51,7 @@ def or_absorption(e):
     def fn(x):
         if x.k == "bin" and x.a[0] == "or":
             kids = conj_terms(x, "or")
-            sets = [set(struct_key(t) for t in conj_terms(k, "and")) for k in kids]
+            sets = [set(term_key(t) for t in conj_terms(k, "and")) for k in kids]
             common = set.intersection(*sets)
             if common and any(s <= common for s in sets):
                 hit.append(1)
@@ -163,7 +184,25 @@ def query_avoid_reasons(q, partitions=2):
     if partitions > 1 and limit_over_outer_join(q):
         reasons.add("left-join-limit-hang")
 
+    def n_from_items(f):
+        if f is None:
+            return 0
+        if f.k == "join":
+            return n_from_items(f.left) + n_from_items(f.right)
+        return 1
+
+    def has_bool_subq(e):
+        hit = []
+
+        def fn(x):
+            if x.k == "subq" and x.a[0] in ("in", "any", "all", "exists"):
+                hit.append(1)
+        _walk_exprs(e, fn)
+        return bool(hit)
+
     def visit_sel(s):
+        if s.where is not None and n_from_items(s.frm) >= 3 and has_bool_subq(s.where):
+            reasons.add("optimizer-semi-join-reorder-loses-rows")
         for e in [s.where, s.having] + [x for x, _ in s.items]:
             if e is None:
                 continue
